@@ -596,6 +596,47 @@ pub fn scenarios(prop: &str, tier: &str) -> Vec<Cfg> {
                 c.focus = focus_of(c.prefill.len());
                 v.push(c);
             }
+            // groups with more than 32 slots in use, growing after some children were polled
+            for (k, n) in [
+                (Kind::Fub(70), 31usize),
+                (Kind::Fub(70), 32),
+                (Kind::Fub(70), 64),
+                (Kind::Fob(70), 32),
+                (Kind::FuNew, 32),
+                (Kind::FuNew, 63),
+                (Kind::FuNew, 64),
+                (Kind::FuNew, 95),
+                (Kind::FoNew, 64),
+                (Kind::FuCap(40), 32),
+            ] {
+                let mut c = Cfg::new("C08", k);
+                c.name = format!("{:?} prefilled {} (large group)", k, n);
+                c.prefill = (0..n).map(|_| f(Mode::Gate)).collect();
+                c.specs = vec![f(Mode::Gate)];
+                c.ops = ops::PUSH | ops::POLL | ops::COMPLETE | ops::MOVE;
+                c.costly = ops::COMPLETE | ops::MOVE;
+                c.delta = 1;
+                c.depth = if thorough { 6 } else { 5 };
+                c.focus = focus_of(n);
+                c.epilogue = Epilogue::Drain;
+                c.horizon = 4000;
+                v.push(c);
+            }
+            {
+                let (k, pre) = mu_prefilled(64, &[(0, "IP"), (63, "PI")]);
+                let mut c = Cfg::new("C08", k);
+                c.name = "Mu(64) second group half full".into();
+                c.prefill = pre;
+                c.specs = vec![s("P")];
+                c.ops = ops::POLL | ops::COMPLETE | ops::PUSH | ops::MOVE;
+                c.costly = ops::COMPLETE | ops::MOVE;
+                c.delta = 1;
+                c.depth = if thorough { 6 } else { 5 };
+                c.focus = focus_of(64);
+                c.epilogue = Epilogue::Drain;
+                c.horizon = 4000;
+                v.push(c);
+            }
             for k in adapters(&[1, 2]) {
                 let mut c = adapter_cfg("C08", k, 3, HintShape::Exact, d, 2);
                 c.ops |= ops::MOVE;
@@ -633,6 +674,21 @@ pub fn scenarios(prop: &str, tier: &str) -> Vec<Cfg> {
                         // completing futures is the interesting dimension here
                         c.costly = ops::FEED_UP;
                     }
+                    v.push(c);
+                }
+            }
+            // large limits (above the internal group size and per-poll budget)
+            let big: Vec<Kind> = if p == "C16" {
+                vec![Kind::Bo(33), Kind::Tbo(33), Kind::Bo(70), Kind::Tbo(70)]
+            } else {
+                vec![Kind::Bu(33), Kind::Bo(33), Kind::Tbu(33), Kind::Tbo(33), Kind::Fec(33), Kind::Bu(70), Kind::Tbu(70), Kind::Tbo(70), Kind::Fec(70)]
+            };
+            for k in big {
+                for len in [40usize, 100] {
+                    let mut c = adapter_cfg(p, k, len, HintShape::Exact, if thorough { 5 } else { 4 }, 1);
+                    c.focus = Some(vec![0, 31, 32, 60, 61, 62, 69]);
+                    c.focus_strict = true;
+                    c.horizon = 4000;
                     v.push(c);
                 }
             }
